@@ -1,9 +1,74 @@
-(* C13 — theorems are added below as the proofs are completed; see DESIGN.md *)
-From Coq Require Import List Arith Bool ZArith.
+(* C13 — epoched (axis=None) analysis partitions the flattened analysis.
+   Model: Model/Epoch.v.  Rows carry six sample indices, labelling features, a label and an opaque
+   payload (all other feature columns).  Structural; no logical axioms. *)
+From Coq Require Import List Arith Bool ZArith Sorted Permutation Floats.PrimFloat.
 Import ListNotations.
-From ByC Require Import Base.Result Model.Epoch.
+From ByC Require Import Base.Result Model.Labels Model.Cycles Model.Epoch Proofs.Epoch.
 
-Theorem C13_placeholder_epoch_count : forall (X : Type) (rows : list (@prow X)) sig_len L,
+(* one table per epoch: ceil(sig_len / L) of them *)
+Theorem C13_epoch_count : forall (X : Type) (rows : list (@prow X)) sig_len L,
   length (epoch_df rows sig_len L) = n_epochs sig_len L.
-Proof. intros. unfold epoch_df. now rewrite map_length, seq_length. Qed.
-Print Assumptions C13_placeholder_epoch_count.
+Proof. exact @epoch_df_length. Qed.
+Print Assumptions C13_epoch_count.
+
+Theorem C13_epoch_count_is_ceiling : forall sig_len L, (0 < L)%Z -> (0 < sig_len)%Z ->
+  ((Z.of_nat (n_epochs sig_len L) - 1) * L < sig_len <= Z.of_nat (n_epochs sig_len L) * L)%Z.
+Proof. exact n_epochs_spec. Qed.
+Print Assumptions C13_epoch_count_is_ceiling.
+
+(* a cycle belongs to the epoch containing its closing side extremum c: epoch ceil(c/L) - 1
+   (so c exactly on a boundary belongs to the EARLIER epoch), and to no other *)
+Theorem C13_epoch_of_a_cycle : forall (X : Type) L k (r : @prow X), (0 < L)%Z -> (0 < s_next (p_s r))%Z ->
+  (in_epoch L k r = true <-> Z.of_nat k = ((s_next (p_s r) + L - 1) / L - 1)%Z).
+Proof. exact @in_epoch_index. Qed.
+Print Assumptions C13_epoch_of_a_cycle.
+
+Theorem C13_exactly_one_epoch : forall (X : Type) L k k' (r : @prow X), (0 < L)%Z ->
+  in_epoch L k r = true -> in_epoch L k' r = true -> k = k'.
+Proof. exact @in_epoch_unique. Qed.
+Print Assumptions C13_exactly_one_epoch.
+
+(* epoch k = the rows assigned to it, in the original order, shifted by the epoch start *)
+Theorem C13_epoch_contents : forall (X : Type) (rows : list (@prow X)) sig_len L k, k < n_epochs sig_len L ->
+  nth k (epoch_df rows sig_len L) [] = map (shift_row (Z.of_nat k * L)) (filter (in_epoch L k) rows).
+Proof. exact @epoch_df_nth. Qed.
+Print Assumptions C13_epoch_contents.
+
+(* shifting leaves every feature, the label and the payload unchanged, and moves all six sample
+   indices by the same amount *)
+Theorem C13_shift_keeps_features : forall (X : Type) d (r : @prow X),
+  p_feat (shift_row d r) = p_feat r /\ p_bf (shift_row d r) = p_bf r /\
+  p_lab (shift_row d r) = p_lab r /\ p_x (shift_row d r) = p_x r.
+Proof. exact @shift_row_feats. Qed.
+Print Assumptions C13_shift_keeps_features.
+
+(* no loss, no duplication, order preserved: un-shifting and concatenating the epochs gives back
+   the flattened table (closing indices increasing, as C01 establishes) *)
+Theorem C13_partition : forall (X : Type) (rows : list (@prow X)) sig_len L, (0 < L)%Z ->
+  StronglySorted (fun a b => (s_next (p_s a) < s_next (p_s b))%Z) rows ->
+  (forall r, In r rows -> (0 < s_next (p_s r) <= Z.of_nat (n_epochs sig_len L) * L)%Z) ->
+  unshift_all L (epoch_df rows sig_len L) = rows.
+Proof. exact @epoch_df_partition. Qed.
+Print Assumptions C13_partition.
+
+(* single option set: the epochs are exactly the epoched flattened table — labels untouched *)
+Theorem C13_single_option_set_keeps_flattened_labels : forall (X : Type) (flat : list (@prow X)) n_rows row_len,
+  group2d_axis_none flat n_rows row_len None = Ok (epoch_df flat (Z.of_nat n_rows * row_len) row_len).
+Proof. exact @axis_none_single. Qed.
+Print Assumptions C13_single_option_set_keeps_flattened_labels.
+
+(* per-epoch list: epoch k is re-labelled with its own option set, independently of the others *)
+Theorem C13_per_epoch_options : forall (X : Type) (flat : list (@prow X)) n_rows row_len opts out,
+  group2d_axis_none flat n_rows row_len (Some opts) = Ok out ->
+  length opts = n_epochs (Z.of_nat n_rows * row_len) row_len ->
+  length out = length opts /\
+  forall k, k < length out ->
+    relabel (nth k opts dflt_opt) (nth k (epoch_df flat (Z.of_nat n_rows * row_len) row_len) []) = Ok (nth k out []).
+Proof. exact @axis_none_list. Qed.
+Print Assumptions C13_per_epoch_options.
+
+(* Legacy: re-labelling epoch 0 on its own with a single option set (pre-repair) changes labels *)
+Theorem C13_legacy_relabel_refuted :
+  group2d_axis_none_legacy legacy_flat 2 10 legacy_opt <> group2d_axis_none legacy_flat 2 10 None.
+Proof. exact axis_none_legacy_refuted. Qed.
+Print Assumptions C13_legacy_relabel_refuted.
